@@ -6,6 +6,7 @@ import (
 	"encoding/json"
 	"fmt"
 	"os"
+	"strings"
 	"testing"
 
 	"go.flow.arcalot.io/engine/internal/verif/vcase"
@@ -48,6 +49,23 @@ func TestShow(t *testing.T) {
 	req := c.Request("run")
 	req.Debug = os.Getenv("VERIF_DEBUG") != ""
 	ans := RunCase(req)
+	for i := 1; i < envInt("VERIF_REPEAT", 1); i++ {
+		if owner, _ := anomaly(ans); owner != "" {
+			fmt.Println("anomaly", owner, "at repetition", i)
+			break
+		}
+		ans = RunCase(req)
+	}
+	if len(ans.Hang) > 1 {
+		fmt.Println("----- HANG: goroutines with engine frames (second dump)")
+		for _, g := range strings.Split(ans.Hang[1], "\n\n") {
+			if strings.Contains(g, "go.flow.arcalot.io/engine/") && !strings.Contains(g, "vrun.execute(") {
+				fmt.Println(g)
+				fmt.Println()
+			}
+		}
+		ans.Hang = []string{"(printed above)"}
+	}
 	el := ans.EngineLog
 	ans.EngineLog = ""
 	lg := ans.Log
